@@ -200,14 +200,14 @@ func processorList(v ssa.Value, depth int) (els []ssa.Value, why string) {
 		return els, ""
 	case *ssa.Call:
 		if b, ok := x.Call.Value.(*ssa.Builtin); ok && b.Name() == "append" {
-			base, w := processorList(x.Call.Args[0], depth+1)
+			base, w := processorList(x.Call.Args[0], depth)
 			if w != "" {
 				if !core.IsNilConst(x.Call.Args[0]) {
 					return nil, w
 				}
 				base = nil
 			}
-			more, w := processorList(x.Call.Args[1], depth+1)
+			more, w := processorList(x.Call.Args[1], depth)
 			if w != "" {
 				return nil, w
 			}
@@ -227,6 +227,15 @@ func processorList(v ssa.Value, depth int) (els []ssa.Value, why string) {
 			return nil, "processor list comes from a helper with several return statements"
 		}
 		return processorList(rets[0], depth+1)
+	case *ssa.MakeSlice:
+		if n, ok := core.ConstInt(x.Len); ok && n == 0 {
+			return nil, "" // make([]*Processor, 0, n): an empty list to append to
+		}
+		return nil, "processor list starts from a non-empty make"
+	case *ssa.Const:
+		if x.Value == nil {
+			return nil, ""
+		}
 	case *ssa.UnOp:
 		// a local variable assigned once
 		if al, ok := x.X.(*ssa.Alloc); ok {
